@@ -206,6 +206,13 @@ impl DRun {
         if !ok {
             return Err(rejected(if by_key { "remove_file_by_key" } else { "remove_file" }, format!("returned false for live file {file}")));
         }
+        // by key: "a file was found and removed" — the first one stored under the key
+        let file = if by_key {
+            let k = self.m.fi(file).key;
+            (0..self.m.n()).find(|&i| self.m.fi(i).key == k).unwrap_or(file)
+        } else {
+            file
+        };
         self.m.remove_file(file);
         Ok(())
     }
@@ -470,6 +477,7 @@ impl DRun {
                     .class_if(m.remove_after_assoc, "remove_file-after-assoc")
                     .class_if(m.removed_files >= 3, "remove_file>=3")
                     .class_if(self.removed_by_key > 0, "remove_file_by_key")
+                    .class_if(crate::common::shared_keys(self.seed), "keys-shared-by-several-files")
                     .class_if(m.removed_tags > 0, "remove_tag")
                     .class_if(m.readded_tag, "tag-name-reused")
                     .class_if(m.dissociations > 0, "dissociated")
